@@ -258,6 +258,7 @@ def run(ctx, sess):
     ctx.rule('C02.11', 'entries of a level above 1 are contiguous: a summary chunk holds a whole number of the lower level\'s reductions, i.e. the divisibility the definition alignment establishes survives to the values it stores (shared with C16.7) - otherwise the writer drops the remainder entries of every chunk while the reader assumes none are missing')
     ctx.rule('C02.12', 'summaries stored in double are consumed in double: in the reader no value loaded from a 64-bit summary (an entry of jls_fsr_f64_summary_s, or an element behind a pointer to double) is converted to float - min, max and mean of 32-bit integer signals need more than 24 bits')
     ctx.rule('C02.13', 'summaries of wide types are stored in double: evaluated for every accepted data type and several fixed-point positions, the summary entry width the writer chooses is 64 bits for every integer type of 32 bits or more and for f64 (an f32 entry holds 24 bits: min and max of such samples would be rounded), and it does not depend on the fixed-point position')
+    ctx.rule('C02.14', 'level-0 statistics are computed from the block just fetched: the conversion of the read buffer to double is not skipped on the word of the cached chunk descriptor (chunk_cur) - a block that was left out is rebuilt into the read buffer without a chunk being read, so chunk_cur still names the block before it')
     ctx.rule('C02.5', 'shared: non-finite values are skipped at every level (C09.4); accumulator algebra of statistics.c - alias safety, empty operands, extremes, non-negative variance, no division by a zero count (C20.1-C20.5); the summary payload length covers every entry of either width (C05.11); the level-0 scratch is filled only up to its allocated length (C10.23)')
     columns_rule(ctx, P, 'C02.1')
     extremes_rule(ctx, P, 'C02.2')
@@ -276,6 +277,7 @@ def run(ctx, sess):
     relay(ctx, sess, _c10.run, {'C10.23': 'C02.5'}, minimum=2)
     f64_consumed_rule(ctx, P, 'C02.12')
     summary_width_rule(ctx, P, 'C02.13')
+    conversion_fresh_rule(ctx, P, 'C02.14')
     from . import c16 as _c16
     relay(ctx, sess, _c16.run, {'C16.7': 'C02.11'}, minimum=1)
     relay(ctx, sess, _c10.run, {'C10.28': 'C02.9'}, only_functions=('fsr_statistics', 'jls_core_fsr_statistics', 'rd_stats_chunk'), minimum=1)
@@ -496,3 +498,21 @@ def summary_width_rule(ctx, P, rule):
            '%d (type, position) pairs evaluated: 64-bit entries for every integer type of 32 bits or more and for f64' % n if not bad else
            '; '.join(bad[:3]) + ' (%d of %d pairs): minimum, maximum and mean of samples above 2^24 are rounded to float in every summary level' % (len(bad), n))
     ctx.floor('(type, position) pairs of summary_entry_size', n, 20)
+
+
+def conversion_fresh_rule(ctx, P, rule):
+    from ..graph import control_deps_transitive
+    n = 0
+    for fn in P.fns_in('src/reader.c'):
+        for c in fn.calls('jls_dt_buffer_to_f64'):
+            n += 1
+            ctx.saw(fn, 1)
+            stale = []
+            for bid, lab in control_deps_transitive(fn, c.block.id):
+                cnd = fn.blocks[bid].cond
+                if cnd is not None and any(m.get('op') == 'member' and m.get('field') == 'chunk_cur' for m in walk(cnd)):
+                    stale.append(show(strip_casts(cnd))[:70])
+            ctx.ob(rule, not stale, fn.name, 'conversion of the fetched block', c.where(),
+                   'not conditional on the cached chunk descriptor' if not stale else
+                   'the conversion is skipped when %s says the block is the one converted last: after a reconstructed (left-out) block chunk_cur still describes the previous stored block, so the statistics of the constant block are those of its neighbour' % stale[0])
+    ctx.floor('conversions of the read buffer in the reader', n, 2)
